@@ -352,6 +352,25 @@ Proof.
   intros H; inversion H; subst. exists e. repeat split; auto.
 Qed.
 
+(* MemoryCache.Store called directly: either the backend is unchanged (set-if-absent refused) or the binding of k is
+   the new cp_entry, whose otter expiration is computed from expire - now (storedTime plays no part) *)
+Lemma store_at_cases st now stored expire k v nx st' o :
+  mem_store_at st now stored expire k v nx = (st', o) ->
+  (st' = st /\ o = OKept (expire - now) /\ nx = true /\ exists e, cp_find k (st_map st) = Some e) \/
+  (o = OStored (expire - now) /\
+   st' = mkState (st_clk st)
+           (put k (mkEntry stored expire v nx (otter_expiration (st_clk st) (expire - now))) (st_map st))).
+Proof.
+  unfold mem_store_at, mem_store. destruct nx.
+  - destruct (cp_find k (st_map st)) as [e|] eqn:Ef; intros H; inversion H; subst; [left|right]; eauto 6.
+  - intros H; inversion H; subst. right. auto.
+Qed.
+
+Lemma store_at_nx_keeps st now stored expire k v e :
+  cp_find k (st_map st) = Some e ->
+  mem_store_at st now stored expire k v true = (st, OKept (expire - now)).
+Proof. intros Hf. unfold mem_store_at, mem_store. rewrite Hf. reflexivity. Qed.
+
 (* ================================================================== histories *)
 Lemma run_app mx st evs1 evs2 :
   cp_run mx st (evs1 ++ evs2) =
@@ -378,21 +397,24 @@ Qed.
 
 (* ---- invariant 1 (no assumption): every cp_entry was put there by a Store event of the history *)
 Definition entry_src (mx : Z) (hist : list event) (k : key) (e : cp_entry) : Prop :=
-  exists eps m, In (EvStore (e_stored e) eps k (Some m) true) hist /\
-    e_msg e = m /\ h_tc (m_hdr m) = false /\ e_expire e = e_stored e + msg_lifetime mx m /\ e_neg e = negative m.
+  (exists eps m, In (EvStore (e_stored e) eps k (Some m) true) hist /\
+    e_msg e = m /\ h_tc (m_hdr m) = false /\ e_expire e = e_stored e + msg_lifetime mx m /\ e_neg e = negative m) \/
+  (exists now, In (EvStoreAt now (e_stored e) (e_expire e) k (e_msg e) (e_neg e)) hist).
 
 Definition inv_src (mx : Z) (hist : list event) (st : cp_state) : Prop :=
   forall k e, cp_find k (st_map st) = Some e -> entry_src mx hist k e.
 
 Lemma entry_src_mono mx hist ev k e : entry_src mx hist k e -> entry_src mx (hist ++ [ev]) k e.
 Proof.
-  intros (eps & m & Hin & H). exists eps, m. split; [apply in_or_app; now left|exact H].
+  intros [(eps & m & Hin & H)|(now & Hin)]; [left|right].
+  - exists eps, m. split; [apply in_or_app; now left|exact H].
+  - exists now. apply in_or_app; now left.
 Qed.
 
 Lemma inv_src_step mx hist st ev :
   inv_src mx hist st -> inv_src mx (hist ++ [ev]) (fst (cp_step mx st ev)).
 Proof.
-  intros Hinv k e. destruct ev as [c|t eps k0 resp pk|t k0|k0|k0]; cbn [cp_step fst].
+  intros Hinv k e. destruct ev as [c|t eps k0 resp pk|now0 s0 x0 k0 v0 nx0|t k0|k0|k0]; cbn [cp_step fst].
   - cbn. intros H. apply entry_src_mono, Hinv, H.
   - destruct (cachectl_store mx st t eps k0 resp pk) as [st' o] eqn:Es. cbn [fst].
     assert (Hcases : st' = st \/ exists L, o = OStored L).
@@ -406,7 +428,13 @@ Proof.
     apply store_writes in Es. destruct Es as (m & -> & Ht & -> & -> & _ & ->). cbn [st_map].
     rewrite find_put. destruct (k =? k0)%N eqn:Ek.
     + apply N.eqb_eq in Ek; subst k0. intros H; inversion H; subst e; clear H.
-      exists eps, m. cbn. split; [apply in_or_app; right; now left|auto].
+      left. exists eps, m. cbn. split; [apply in_or_app; right; now left|auto].
+    + intros H. apply entry_src_mono, Hinv, H.
+  - destruct (mem_store_at st now0 s0 x0 k0 v0 nx0) as [st' o] eqn:Es. cbn [fst].
+    apply store_at_cases in Es. destruct Es as [(-> & _)|(_ & ->)]; [intros H; apply entry_src_mono, Hinv, H|].
+    cbn [st_map]. rewrite find_put. destruct (k =? k0)%N eqn:Ek.
+    + apply N.eqb_eq in Ek; subst k0. intros H; inversion H; subst e; clear H.
+      right. exists now0. cbn. apply in_or_app; right; now left.
     + intros H. apply entry_src_mono, Hinv, H.
   - unfold cachectl_get. destruct (cp_find k0 (st_map st)) as [e0|] eqn:Ef; cbn [fst].
     + destruct (has_expired (st_clk st) e0); cbn [fst st_map]; intros H; apply entry_src_mono, Hinv, H.
@@ -435,9 +463,11 @@ Proof. apply (inv_src_run mx evs [] (init_state clk)), inv_src_init. Qed.
 
 Lemma ev_okb_sound lag mx clk ev : ev_okb lag mx clk ev = true -> ev_ok lag mx clk ev.
 Proof.
-  destruct ev as [c|t eps k resp pk|t k|k|k]; cbn [ev_okb ev_ok]; auto.
+  destruct ev as [c|t eps k resp pk|now0 s0 x0 k v0 nx0|t k|k|k]; cbn [ev_okb ev_ok]; auto.
   - rewrite !andb_true_iff. intros [[[H1 H2] H3] H4].
     apply Z.leb_le in H1, H3. apply Z.ltb_lt in H2, H4. auto.
+  - rewrite !andb_true_iff. intros [[H1 H2] H3].
+    apply Z.leb_le in H1. apply Z.ltb_lt in H2, H3. auto.
   - apply Z.ltb_lt.
 Qed.
 
@@ -457,7 +487,7 @@ Proof.
 Qed.
 
 Definition entry_clk (e : cp_entry) : Prop :=
-  SECOND <= e_expire e - e_stored e /\ Z.of_N (e_exp e) * SECOND <= e_expire e + SECOND - 1.
+  Z.of_N (e_exp e) * SECOND <= e_expire e + SECOND - 1.
 
 Definition inv_clk (st : cp_state) : Prop := forall k e, cp_find k (st_map st) = Some e -> entry_clk e.
 
@@ -477,10 +507,28 @@ Proof.
   rewrite N.mod_small by lia. lia.
 Qed.
 
+(* the same for a direct MemoryCache.Store at wall time [now]: clk + ceil((expire - now) / 1 s) - storedTime does not
+   occur.  (With expire - stored in place of expire - now the statement is false as soon as stored < now.) *)
+Lemma otter_expiration_bound_at clk now expire :
+  Z.of_N clk * SECOND <= now -> - SECOND < expire - now ->
+  Z.of_N clk * SECOND + (expire - now) + SECOND < two32 * SECOND ->
+  Z.of_N (otter_expiration clk (expire - now)) * SECOND <= expire + SECOND - 1.
+Proof.
+  unfold otter_expiration, otter_ttl, two32, SECOND. intros Hc Hd Hw.
+  assert (Hq : 0 <= Z.quot (expire - now + 1000000000 - 1) 1000000000 /\
+               Z.quot (expire - now + 1000000000 - 1) 1000000000 * 1000000000 <= expire - now + 1000000000 - 1).
+  { split; [apply Z.quot_pos; lia|].
+    pose proof (Z.mul_quot_le (expire - now + 1000000000 - 1) 1000000000 ltac:(lia) ltac:(lia)). lia. }
+  destruct Hq as [Hq0 Hq1].
+  assert (Hq2 : Z.quot (expire - now + 1000000000 - 1) 1000000000 < 4294967296) by lia.
+  rewrite Z.mod_small by lia.
+  rewrite N.mod_small by lia. lia.
+Qed.
+
 Lemma inv_clk_step lag mx st ev :
   SECOND <= mx -> inv_clk st -> ev_ok lag mx (st_clk st) ev -> inv_clk (fst (cp_step mx st ev)).
 Proof.
-  intros Hmx Hinv Hok k e. destruct ev as [c|t eps k0 resp pk|t k0|k0|k0]; cbn [cp_step fst].
+  intros Hmx Hinv Hok k e. destruct ev as [c|t eps k0 resp pk|now0 s0 x0 k0 v0 nx0|t k0|k0|k0]; cbn [cp_step fst].
   - cbn. apply Hinv.
   - destruct (cachectl_store mx st t eps k0 resp pk) as [st' o] eqn:Es. cbn [fst].
     assert (Hcases : st' = st \/ exists L, o = OStored L).
@@ -496,7 +544,12 @@ Proof.
     intros H; inversion H; subst e; clear H. unfold entry_clk. cbn [e_expire e_stored e_exp].
     destruct Hok as (He & Hc & Hw).
     pose proof (msg_lifetime_ge_1s mx m Hmx) as HL1. pose proof (msg_lifetime_le_max mx m) as HL2.
-    split; [lia|]. apply (otter_expiration_bound (st_clk st) (msg_lifetime mx m) eps t mx); auto.
+    apply (otter_expiration_bound (st_clk st) (msg_lifetime mx m) eps t mx); auto.
+  - destruct (mem_store_at st now0 s0 x0 k0 v0 nx0) as [st' o] eqn:Es. cbn [fst].
+    apply store_at_cases in Es. destruct Es as [(-> & _)|(_ & ->)]; [apply Hinv|].
+    cbn [st_map]. rewrite find_put. destruct (k =? k0)%N eqn:Ek; [|apply Hinv].
+    intros H; inversion H; subst e; clear H. unfold entry_clk. cbn [e_expire e_exp].
+    destruct Hok as (Hc & Hd & Hw). apply otter_expiration_bound_at; auto.
   - unfold cachectl_get. destruct (cp_find k0 (st_map st)) as [e0|] eqn:Ef; cbn [fst]; [|apply Hinv].
     destruct (has_expired (st_clk st) e0); cbn [fst st_map]; apply Hinv.
   - destruct (cp_find k0 (st_map st)) as [e0|] eqn:Ef; cbn [fst]; [|apply Hinv].
@@ -522,44 +575,76 @@ Proof. intros k e H. discriminate. Qed.
 Lemma live_before_expiry lag clk e t :
   entry_clk e -> has_expired clk e = false -> t - lag < Z.of_N clk * SECOND -> t < e_expire e + lag.
 Proof.
-  unfold entry_clk, has_expired, SECOND. intros [_ H] Hx Hc. apply N.leb_gt in Hx. lia.
+  unfold entry_clk, has_expired, SECOND. intros H Hx Hc. apply N.leb_gt in Hx. lia.
 Qed.
 
 (* ================================================================== history theorems *)
 
+(* where the message of a hit came from: a cacheCtl.Store event of this history for this key (then expire = stored +
+   lifetime of that response), or a direct MemoryCache.Store (promotion of a redis hit / hook) with exactly these
+   stored / expire instants *)
+Definition hit_src (mx : Z) (evs : list event) (k : key) (m : msg) (s x : Z) : Prop :=
+  (exists eps, In (EvStore s eps k (Some m) true) evs /\ h_tc (m_hdr m) = false /\ x = s + msg_lifetime mx m) \/
+  (exists now nx, In (EvStoreAt now s x k m nx) evs).
+
 (* TTL ageing: whatever the history, a hit returns a message some Store event of this history supplied for this key
-   (not truncated), with every non-OPT TTL = max 1 (ttl - whole seconds since that Store), OPT and all else untouched *)
+   (not truncated when it came through cacheCtl.Store), with every non-OPT TTL = max 1 (ttl - whole seconds since its
+   storedTime), OPT and all else untouched *)
 Lemma hit_ttl_bound mx clk0 evs t k st' m' s x :
   cachectl_get (fst (cp_run mx (init_state clk0) evs)) t k = (st', OHit m' s x) ->
-  exists eps m, In (EvStore s eps k (Some m) true) evs /\ h_tc (m_hdr m) = false /\
-    x = s + msg_lifetime mx m /\
+  exists m, hit_src mx evs k m s x /\
     m' = subtract_ttl (elapsed_secs t s) m /\
     Forall2 (rr_aged (elapsed_secs t s)) (rrs m) (rrs m') /\
     m_hdr m' = m_hdr m /\ m_qs m' = m_qs m /\
     (0 <= t - s < two32 * SECOND -> Z.of_N (elapsed_secs t s) = (t - s) / SECOND).
 Proof.
   intros H. apply get_hit in H. destruct H as (e & Hf & _ & _ & -> & -> & ->).
-  apply (reachable_src mx clk0 evs) in Hf. destruct Hf as (eps & m & Hin & <- & Ht & Hx & _).
-  exists eps, (e_msg e). pose proof (subtract_ttl_spec (elapsed_secs t (e_stored e)) (e_msg e)) as (S1 & S2 & S3 & _).
-  repeat split; auto. apply elapsed_secs_floor.
+  apply (reachable_src mx clk0 evs) in Hf.
+  exists (e_msg e). pose proof (subtract_ttl_spec (elapsed_secs t (e_stored e)) (e_msg e)) as (S1 & S2 & S3 & _).
+  split; [|repeat split; auto; apply elapsed_secs_floor].
+  destruct Hf as [(eps & m & Hin & <- & Ht & Hx & _)|(now & Hin)]; [left|right]; eauto.
 Qed.
 
-(* expiry: under the clock assumption, a hit at wall time t satisfies t < stored + lifetime + lag *)
+(* expiry: under the clock assumption, a hit at wall time t satisfies t < expire + lag, whatever the storedTime of the
+   cp_entry is *)
 Lemma hit_before_expiry lag mx clk0 evs t k st' m' s x :
   SECOND <= mx ->
   hist_ok lag mx (init_state clk0) (evs ++ [EvGet t k]) ->
   cachectl_get (fst (cp_run mx (init_state clk0) evs)) t k = (st', OHit m' s x) ->
-  t < x + lag /\
-  exists eps m, In (EvStore s eps k (Some m) true) evs /\ x = s + msg_lifetime mx m.
+  t < x + lag /\ exists m, hit_src mx evs k m s x.
 Proof.
   intros Hmx Hok H. apply hist_ok_app in Hok. destruct Hok as [Hok1 [Hget _]].
   pose proof (inv_clk_run lag mx evs Hmx (init_state clk0) (inv_clk_init clk0) Hok1) as Hinv.
   pose proof H as H0. apply get_hit in H. destruct H as (e & Hf & Hx & _ & -> & -> & _).
   split.
   - apply (live_before_expiry lag (st_clk (fst (cp_run mx (init_state clk0) evs))) e t (Hinv k e Hf) Hx). exact Hget.
-  - apply hit_ttl_bound in H0. destruct H0 as (eps & m & Hin & _ & Hxx & _). eauto.
+  - apply hit_ttl_bound in H0. destruct H0 as (m & Hs & _). eauto.
 Qed.
 
+(* the promotion clause on its own: an entry put there by a direct MemoryCache.Store(stored, expire) is never served
+   at or after expire + lag - for EVERY stored, in particular one far in the past *)
+Lemma store_at_expiry lag mx clk0 evs t k st' m' s x :
+  SECOND <= mx ->
+  hist_ok lag mx (init_state clk0) (evs ++ [EvGet t k]) ->
+  cachectl_get (fst (cp_run mx (init_state clk0) evs)) t k = (st', OHit m' s x) ->
+  forall now m nx, In (EvStoreAt now s x k m nx) evs -> t < x + lag.
+Proof. intros Hmx Hok H now m nx _. exact (proj1 (hit_before_expiry lag mx clk0 evs t k st' m' s x Hmx Hok H)). Qed.
+
+(* the lifetime restarted at promotion (ttl := expire - stored instead of expire - now) is exactly what the invariant
+   excludes: with a storedTime 10 s in the past, the cp_entry such a Store would create is still live under an ideal
+   clock (lag < 1 s) 9.5 s after its expireTime *)
+Lemma restarted_lifetime_serves_stale :
+  exists clk now stored expire clk' t v,
+    Z.of_N clk * SECOND <= now /\ - SECOND < expire - now /\ stored <= now /\
+    t - SECOND < Z.of_N clk' * SECOND /\
+    has_expired clk' (mkEntry stored expire v true (otter_expiration clk (expire - stored))) = false /\
+    expire + 2 * SECOND <= t /\
+    ~ entry_clk (mkEntry stored expire v true (otter_expiration clk (expire - stored))).
+Proof.
+  exists 100%N, (100 * SECOND), (90 * SECOND), (101 * SECOND), 110%N, (110 * SECOND + SECOND / 2),
+         (mkMsg (mkHeader 0 true 0 false false true true false false 0) [] [] [] []).
+  unfold entry_clk. cbn [e_exp e_expire]. vm_compute. repeat split; try discriminate. intros H. apply H. reflexivity.
+Qed.
 
 Lemma steps_sat_all (P : cp_state -> event -> cp_state -> out -> Prop) mx : (forall st ev, P st ev (fst (cp_step mx st ev)) (snd (cp_step mx st ev))) ->
   forall evs st, steps_sat P mx st evs.
@@ -568,10 +653,11 @@ Proof. intros HP. induction evs as [|ev evs IH]; intros st; cbn; auto. Qed.
 
 Lemma negative_nx_history mx evs st : steps_sat neg_keeps mx st evs.
 Proof.
-  apply steps_sat_all. intros st0 ev. destruct ev as [c|t eps k resp pk|t k|k|k]; cbn; auto.
-  destruct resp as [m|]; auto. intros Hn e Hf.
-  destruct (store_negative_keeps mx st0 t eps k m pk e Hn Hf) as (o & -> & Ho). cbn [fst snd].
-  split; [reflexivity|]. destruct Ho as [->| ->]; eauto.
+  apply steps_sat_all. intros st0 ev. destruct ev as [c|t eps k resp pk|now0 s0 x0 k v0 nx0|t k|k|k]; cbn [neg_keeps]; auto.
+  - destruct resp as [m|]; auto. intros Hn e Hf. cbn [cp_step].
+    destruct (store_negative_keeps mx st0 t eps k m pk e Hn Hf) as (o & -> & Ho). cbn [fst snd].
+    split; [reflexivity|]. destruct Ho as [->| ->]; eauto.
+  - destruct nx0; auto. intros e Hf. cbn [cp_step]. rewrite (store_at_nx_keeps st0 now0 s0 x0 k v0 e Hf). cbn [fst snd]. eauto.
 Qed.
 
 (* a negative store onto a present key is invisible to the whole future of the history *)
